@@ -7,7 +7,7 @@ STAGES = ("lex", "parse", "check", "regex", "render")
 FIELD_SPLIT = re.compile(r";(?=(?:lex|parse|check|regex|render|note)=)")
 
 FRONT_RULE = (
-    "FUZZING, not proof. Byte strings from six seeded generators (the letter is the id prefix): "
+    "FUZZING, not proof. Byte strings from seven seeded generators (the letter is the id prefix): "
     "g = random grammar of Elk expressions/statements/declarations (closures with and without arrow, `a ?? b`/`a || b`/`a && b` "
     "directly as call arguments, regex literals with odd bodies such as `(?#`, string interpolation, macros/quote/unquote, "
     "switch patterns, generics, type annotations); m = token-level mutations (lex a valid program, delete/duplicate/swap/replace "
@@ -25,6 +25,21 @@ FRONT_RULE = (
     "interpolation, symbols, quoted identifiers, regex literals, ranges, comments, and the collection literals %w[ %s[ %x[ %b[ and "
     "their ^ and backslash forms with valid and INVALID elements, any separator, closed / closed with capacity / not closed; the "
     "same literal grammar also feeds the atoms of g (hence m and t); stages lex, parse, render only; "
+    "d = DECLARATION-LEVEL programs for the checker (n/10 quick, n/4 thorough; harness/cmd/c03/decl.go): a graph of 1-4 named entities - "
+    "typedefs (plain/generic), classes (plain/generic), mixins, interfaces, modules, constants - placed in the root namespace, in a "
+    "container M (module/class/mixin/interface), a nested M::N or a sibling K (containers opened nested, reopened, as `class M::N`, or "
+    "everything declared flat as `class M::A`); each entity refers to others in its typedef body (through unions, nilable, "
+    "intersections, generic arguments, bounds and defaults of type parameters, closure types, unary type operators), as superclass, "
+    "include / implement / using, instance variable / getter / method signature types, nested typedef / class / constant, constant "
+    "initialisers (other constants, constructor and method calls, macro calls) and method bodies calling m0..m2 of itself or of the "
+    "referenced entities (instance, singleton, default arguments), optionally a macro; every reference is printed in a seeded NAME "
+    "FORM - plain `A`, qualified `M::N::A`, absolute `::M::N::A`, partially qualified `N::A`, a path through another namespace, a missing "
+    "name (a per-program style: plain only / always qualified / mostly qualified / anything); graph shapes: a CYCLE of length 1-3 (half "
+    "of the programs), forward chain, chain with missing names, random edges, plus duplicate names; declaration order shuffled; then "
+    "every entity is USED 1-2 times at the root (`var x: T = 1`, nilable/union/ArrayList[T] annotations, `1 as T`, a method over T, a typedef "
+    "over T, `T()`, `T.m0()`, `T::mac!(1)`, `T::foo!()`, subclass / include / implement of T, `using T::*`, object patterns, `println(C)`), "
+    "in 1/8 of the programs BEFORE the declarations; stages lex, parse, check, render with 1 s / 3 s of CPU; about 9 in 10 parse, so the "
+    "checker really runs; "
     "c = corpus/C03.front.txt replayed first. Each input runs in one of 8 worker subprocesses through lexer.Lex, parser.Parse, "
     "checker.CheckSource (fresh global environment per input, ~30 ms; it only does work when the parser accepts the input, "
     "which is the case for about 1 input in 5, otherwise it returns the parser's diagnostics: recorded as check=skip) and "
@@ -217,7 +232,9 @@ def front_stream(ctx):
             if kind == "timeout-unretried":
                 continue      # same site already confirmed 3 times in this run; counted, not reported again
             key = "front:%s:%s:%s" % (stage, kind, site)
-            what = ("%s: %s in stage %s at %s%s" % (case[:200], "does not terminate (2 s then 6 s of CPU, alone in a fresh process)"
+            if kind == "fatal" and ("stack overflow" in msg or "stack exceeds" in msg):
+                key += ":stack-overflow"      # unbounded recursion (not recoverable), as opposed to a panic in a goroutine of the checker
+            what = ("%s: %s in stage %s at %s%s" % (case[:200], "does not terminate (CPU budget exceeded twice, the second time alone in a fresh process with three times the budget)"
                                                       if kind == "timeout" else "kills the process", stage, site, (": " + msg) if msg else ""))
             fails.append((len(b), key, what, case, obs[i]))
             continue
@@ -277,7 +294,14 @@ def run(ctx):
         "(with and without a trailing newline) of all lexer test inputs, of parser test inputs and of snippets of a literal grammar "
         "that covers every literal kind / lexer mode with invalid elements (generator p): this is an implementation-level oracle "
         "(CPU-time watchdog + recover), NOT a model - the scanners of the Elk lexer (e.g. scanIntCollectionLiteral, where a loop that "
-        "does not test advanceChar's ok result at end of input would spin) are not modelled in Coq. A pass of c03.front means no "
+        "does not test advanceChar's ok result at end of input would spin) are not modelled in Coq. Since the second strengthening pass "
+        "the stream has a DECLARATION-LEVEL generator for the checker stage (generator d: small graphs of typedefs / classes / mixins / "
+        "interfaces / modules / constants referring to each other in every name form - plain, M::X, ::M::X, nested - with cycles of "
+        "length 1-3, forward references, duplicates and missing names on purpose, every declared entity used afterwards); again an "
+        "implementation-level oracle (watchdog, recover, worker death), NOT a model: name resolution, the on-demand type definition check "
+        "and cycle detection of the checker are not modelled in Coq. On the unchanged tree this class crashes or hangs the checker at more "
+        "than a dozen sites (known findings keyed by site; hang sites are the deepest frame common to 8 stack samples and may vary between "
+        "runs for one and the same defect). A pass of c03.front means no "
         "crashing or hanging input was found among the inputs tried, nothing more.")
     ctx.trusted_base += [
         "c03.front: Go harness harness/cmd/c03 (generators, worker pool, CPU-time watchdog reading /proc/<pid>/stat, stack-sample site extraction); "
